@@ -183,8 +183,7 @@ theorem counter_loop_budget {k : Nat} (run : St → Res) (re : Option (St → Re
   cloopWith_RK run re f ls s hrun hre hs hb
 
 /-- The distance of the commonest loop, `for i := a; i < b; i++`: `b − a` iterations (none when `a ≥ b`). -/
-theorem dist_lt_inc (a b : Int) : dist .lt .inc a b = some (b - a).toNat := by
-  simp [dist]
+theorem dist_lt_inc (a b : Int) : dist .lt .inc a b = some (b - a).toNat := rfl
 
 /-! Non-vacuity: nested counter loops with literal bounds, one counting up, one counting down, and an include of them. -/
 def regLoops : Registry :=
